@@ -64,7 +64,7 @@ def mkEnv (tbl : List (Str × Str)) : Env :=
 
 /-- every string the model may hash for id `k` (plain and marked, raw and safe) is in the table -/
 def covered (tbl : List (Str × Str)) (k : Str) : Bool :=
-  [k, safeKey k, markKey true k, safeKey (markKey true k)].all (fun x => (tbl.lookup x).isSome)
+  [[], k, safeKey k, markKey true k, safeKey (markKey true k)].all (fun x => (tbl.lookup x).isSome)
 
 def path? (j : Json) : Option Path := jStrList? j
 
